@@ -106,6 +106,12 @@ func init() {
 			return b
 		},
 		"vTier": func(fr *frame, a []value) value { return fr.i.p.tier },
+		// vCost: the work done so far on this path under the engine's cost model: SSA instructions
+		// interpreted plus elements moved by append/copy (natively: nanoseconds of wall time)
+		"vCost": func(fr *frame, a []value) value { return int(fr.i.steps + fr.i.copyCost) },
+		// vScale(k): 1 in the engine, k in the native replay (sizes and repetitions that only the
+		// native run can afford)
+		"vScale": func(fr *frame, a []value) value { return 1 },
 		"vSchedPoint": func(fr *frame, a []value) value { return nil }, // native-only schedule perturbation; the engine switches at acquiring operations
 		"vAssume": func(fr *frame, a []value) value {
 			fr.i.assume(boolTerm(fr.i, a[0]))
